@@ -31,6 +31,7 @@ _NEG = {"cmp_Lt": "cmp_GtE", "cmp_GtE": "cmp_Lt", "cmp_Gt": "cmp_LtE", "cmp_LtE"
 
 _SIZE = {}
 _HC = {}
+RENAMES = {}       # new function name -> reference name (functions recognised as renamed, see refs.rename_map)
 
 
 def size_of(v):
@@ -334,6 +335,10 @@ class PyVal:
 
     def _call(self, node, env):
         name = pf.call_name(node) or ""
+        if RENAMES and name:
+            head, _, last = name.rpartition(".")
+            if last in RENAMES:
+                name = (head + "." if head else "") + RENAMES[last]
         args = [self._v(a, env) for a in node.args]
         kwv = {(k.arg or "**"): self._v(k.value, env) for k in node.keywords}
         v = self._call_value(node, env, name, args, kwv)
@@ -886,8 +891,12 @@ class PyVal:
                 guards.extend(ro.guards)
 
 
-def fold_function(fn, facts=None, funcs=None, env=None, pure=(), inline=None, exact=False):
+def fold_function(fn, facts=None, funcs=None, env=None, pure=(), inline=None, exact=False, bind=None):
     pv = PyVal(funcs=funcs, facts=facts, pure=pure, exact=exact)
+    if bind:
+        env = dict(env or {})
+        for k, node in bind.items():
+            env[k] = pv.value(node, {})
     pv.inline = inline or {}
     from . import alpha
     pv.locals = alpha._bound(fn) | {"self", "cls"}
